@@ -572,6 +572,11 @@ where
     fn math(&self) -> Ref<'_, M> {
         self.math.borrow()
     }
+
+    #[cfg(nuts_rs_verif)]
+    fn verif_adapt_counters(&self) -> Option<crate::verif::AdaptCounters> {
+        self.adapt.verif_counters()
+    }
 }
 
 // ── Tests ─────────────────────────────────────────────────────────────────────
